@@ -35,6 +35,7 @@ func runC03(p *Program, r *Report) {
 	c03closepayload(p, r, "C03.closepayload")
 	c03full(p, r, "C03.full")
 	c03taint(p, r, "C03.taint")
+	c01dict(p, r, "C03.flate")
 }
 
 // opcodeCandidates: regions of the opcode line cut at every constant compared in the functions.
